@@ -4,7 +4,7 @@
     ([XCrash k]) are precisely the prefixes of the real write sequence, and a crash after the last
     write is a clean restart. *)
 From Coq Require Import List NArith Arith Bool Lia String.
-From GV Require Import Base.Ints Gen.Math Gen.Kernel Model.Mirror.
+From GV Require Import Base.Ints Gen.Math Gen.Kernel Model.Mirror Proofs.MirrorAuth.
 Import ListNotations.
 Local Open Scope N_scope.
 
@@ -207,9 +207,50 @@ Proof.
   all: destruct (_ <? _); [apply Hsame|exact Hacc].
 Qed.
 
+Lemma logged_jump_until fuel : forall s r, logged s (jump_until fuel s r).
+Proof.
+  induction fuel as [|f IH]; intros s r; cbn [jump_until]; [apply logged_refl|].
+  destruct (_ <? _); [eapply logged_trans; [apply logged_jump|apply IH]|apply logged_refl].
+Qed.
+
+Lemma logged_replay_insert s hd r s1 : MirrorAuth.replay_insert s hd r = Ok s1 -> logged s s1.
+Proof.
+  unfold MirrorAuth.replay_insert.
+  destruct (existsb _ (v_phs _)); [intros E; inversion E; subst; apply logged_refl|].
+  destruct (existsb _ (st_rounds s)); [discriminate|].
+  intros E; inversion E; subst. eapply logged_one; reflexivity.
+Qed.
+
+Lemma logged_handle_replay s0 hd cp s' res : handle_replay s0 hd cp = Ok (s', res) -> logged s0 s'.
+Proof.
+  unfold handle_replay.
+  destruct (negb (hd_height hd =? _)); [intros E; inversion E; subst; apply logged_refl|].
+  destruct (cp_round cp <? _); [discriminate|].
+  pose proof (logged_jump_until (N.to_nat (cp_round cp - v_r (k_vot s0))) s0 (cp_round cp)) as L.
+  set (s := jump_until _ s0 _) in *.
+  destruct (negb _); [discriminate|].
+  assert (Hsame : forall r0, Ok (s, r0) = Ok (s', res) -> logged s0 s') by (intros r0 E; inversion E; subst; exact L).
+  destruct (negb (hd_ok hd)); [apply Hsame|].
+  destruct (negb (hd_height hd =? k_init_h s) && _); [apply Hsame|].
+  destruct (negb (valset_equal _ _ && _)); [apply Hsame|].
+  destruct (negb (vs_ok (hd_next hd))); [apply Hsame|].
+  destruct (fold_left _ (cp_proofs cp) ([], true)) as [temp allv].
+  destruct (negb allv); [apply Hsame|].
+  fold (MirrorAuth.replay_insert s hd (cp_round cp)).
+  unfold bind at 1. destruct (MirrorAuth.replay_insert s hd (cp_round cp)) as [s1|] eqn:Hins; [|discriminate].
+  assert (L1 : logged s0 s1) by (eapply logged_trans; [exact L|eapply logged_replay_insert; exact Hins]).
+  destruct (pm_get temp (hd_hash hd)); [|intros E; inversion E; subst; exact L1].
+  unfold bind at 1. destruct (byz_majority _); [|discriminate].
+  destruct (_ <? _); [intros E; inversion E; subst; exact L1|].
+  unfold bind. destruct (check_voting_precommit_shift _) as [s3|] eqn:Hcv; [|discriminate].
+  intros E; inversion E; subst.
+  eapply logged_trans; [exact L1|]. eapply logged_trans; [|apply logged_check_voting; exact Hcv].
+  eapply logged_one; reflexivity.
+Qed.
+
 Theorem step_is_logged s o s' res : step s o = Ok (s', res) -> logged s s'.
 Proof.
-  destruct o as [p|m|m]; cbn [step].
+  destruct o as [p|m|m|x cp]; cbn [step]; [| | |apply logged_handle_replay].
   - unfold handle_ph. destruct (ph_key p); [apply logged_handle_ph_loop|].
     intros E; inversion E; subst; apply logged_refl.
   - apply logged_handle_votes; left; reflexivity.
